@@ -373,27 +373,32 @@ def r5_sorted_registration(P, rep, ctx):
             rep.fail("C16.R5", fi.qual, f"registry entry dropped: {norm(d_)[:70]}", f"{fi.qual} removes registered versions ({norm(d_)[:70]}): other versions of the plugin are forgotten and resolve()/versions() answer from an incomplete list", fi.loc(d_))
     # versions(): order preserving; plugin-side direction of supports
     fi = P.func(f"{PG}.versions")
-    rets = [x.value for x in walk_local(fi.node) if isinstance(x, ast.Return)]
-    ok = bool(rets)
-    for r in rets:
-        if isinstance(r, ast.Name):
-            ds = [v for k, v in local_defs(fi).get(r.id, []) if v is not None]
-            ok = ok and all(isinstance(d, ast.Call) and norm(d.func) == "list" and "_VERSIONS" in norm(d) for d in ds)
-        elif isinstance(r, ast.ListComp):
-            gen = r.generators[0]
-            ok = ok and norm(r.elt) == norm(gen.target) and len(r.generators) == 1
-            conds = [norm(i) for i in gen.ifs]
-            ok = ok and conds == [f"{norm(gen.target)}.supports(requested)"]
+    vf_ = F(ctx, fi)
+    pn, pver = fi.params[1], fi.params[2]
+    REG = (f"list(self._VERSIONS.get({pn}) or [])", f"list(self._VERSIONS.get({pn}, []))", f"self._VERSIONS.get({pn}, [])[:]")
+    REQ = f"self.PluginRef(name={pn}, version={pver})"
+    ok = bool(vf_.returns())
+    for i_, r in vf_.returns():
+        x = vf_.xe_at(i_, r) if r is not None else None
+        if x is not None and norm(x) in REG:
+            continue
+        if isinstance(x, ast.ListComp) and len(x.generators) == 1:
+            gen = x.generators[0]
+            tv = norm(gen.target)
+            ok = ok and norm(x.elt) == tv and norm(gen.iter) in REG and [norm(c_) for c_ in gen.ifs] == [f"{tv}.supports({REQ})"]
         else:
             ok = False
     rep.check(ok, "C16.R5", fi.qual, "versions() filters the registered list order-preservingly with available.supports(requested)", fi.loc(), construct="versions() result",
               message="versions() does not return the registered versions in order, filtered by `<available>.supports(requested)`")
     fi = P.func(f"{PG}.resolve")
-    rets = [x.value for x in walk_local(fi.node) if isinstance(x, ast.Return)]
-    picks = [norm(r) for r in rets if r is not None and not (isinstance(r, ast.Constant) and r.value is None)]
-    rep.check(picks == ["refs[-1]"] and any("refs := self.versions(p_name, version)" in norm(x) for x in walk_local(fi.node) if isinstance(x, ast.If)), "C16.R5", fi.qual,
-              "resolve() returns the last (newest) compatible version of versions()", fi.loc(), construct=f"resolve picks {picks}",
-              message=f"resolve() does not return the last element of versions(p_name, version): {picks}")
+    rf_ = F(ctx, fi)
+    VERS = f"self.versions({fi.params[1]}, {fi.params[2]})"
+    found = rf_.tests(VERS, f"len({VERS})")
+    picks = [(i_, rf_.x_at(i_, r)) for i_, r in rf_.returns() if r is not None and not (isinstance(r, ast.Constant) and r.value is None)]
+    okp = bool(picks) and all(t == f"{VERS}[-1]" for i_, t in picks) and bool(found) and all(rf_.hit_before(i_, edges=found) for i_, t in picks) and all(rf_.hit_before(rf_.g.exit, nodes=[i_ for i_, t in picks], src_edge=e) for e in found)
+    rep.check(okp, "C16.R5", fi.qual,
+              "resolve() returns the last (newest) compatible version of versions()", fi.loc(), construct="resolve picks the last",
+              message=f"resolve() does not return the last element of versions(p_name, version): {[t for i_, t in picks]}")
     # resolve / versions consult only the registry (or state every registry writer also updates)
     writers = [fn for fn in P.functions.values() if isinstance(fn.node, (ast.FunctionDef, ast.AsyncFunctionDef)) and "_VERSIONS" in norm(fn.node) and any("_VERSIONS[" in F(ctx, fn).x_at(i, c.func.value) for m_ in ("append", "insert", "extend") for i, c, b in F(ctx, fn).call_sites(f"__l.{m_}(___)"))]
     for q, allowed in ((f"{PG}.resolve", {"versions"}), (f"{PG}.versions", {"_VERSIONS", "PluginRef"})):
@@ -414,24 +419,30 @@ def r5_sorted_registration(P, rep, ctx):
     if mr is None:
         raise AnalysisError("register_in_group.manual_register not found")
     require_total(rep, ctx, "C16.R5", mr)
-    gmr = ctx.cfg(mr)
-    for stmt_txt, what in (("pgroup._ENTRY_POINTS[ep_name] = None", "the entry point name is recorded"), ("pgroup._LOADED_PLUGINS[pg_ref] = plugin", "the class is recorded as loaded plugin"), ("pgroup._load_plugin(ep_name, plugin)", "the plugin is checked and initialised")):
-        ns = [n.idx for n in gmr.nodes if n.kind == "stmt" and norm(n.stmt) == stmt_txt]
-        rep.check(bool(ns) and gmr.every_path_passes(ns, gmr.exit), "C16.R5", mr.qual, f"manual registration: {what}", mr.loc(), construct=stmt_txt, message=f"register_in_group no longer does `{stmt_txt}` on every path")
+    mf_ = F(ctx, mr)
+    pl = mr.params[0]
+    EPN = f"to_ep_name({pl}.Plugin.name, {pl}.Plugin.version)"
+    REF = f"pgroup.PluginRef(name={pl}.Plugin.name, version={pl}.Plugin.version)"
+    ep_st = [i_ for i_, v, b in mf_.stores("pgroup._ENTRY_POINTS[__k]") if mf_.x_at(i_, b["__k"]) == EPN]
+    ld_st = [i_ for i_, v, b in mf_.stores("pgroup._LOADED_PLUGINS[__k]") if mf_.x_at(i_, b["__k"]) == REF and norm(v) == pl]
+    lp = [i_ for i_, c, b in mf_.call_sites(f"pgroup._load_plugin(__e, {pl})") if mf_.x_at(i_, b["__e"]) == EPN]
+    for ns, what, cons in ((ep_st, "the entry point name is recorded", "pgroup._ENTRY_POINTS[ep_name] = None"), (ld_st, "the class is recorded as loaded plugin", "pgroup._LOADED_PLUGINS[pg_ref] = plugin"), (lp, "the plugin is checked and initialised", "pgroup._load_plugin(ep_name, plugin)")):
+        rep.check(bool(ns) and mf_.hit_before(mf_.g.exit, nodes=ns), "C16.R5", mr.qual, f"manual registration: {what}", mr.loc(), construct=cons, message=f"register_in_group no longer does `{cons}` on every path")
     ae = P.func(f"{PG}._add_ep")
-    gae = ctx.cfg(ae)
-    ns = [n.idx for n in gae.nodes if n.kind == "stmt" and norm(n.stmt) == "self._ENTRY_POINTS[ep_name] = ep_obj"]
-    rep.check(bool(ns) and gae.every_path_passes(ns, gae.exit), "C16.R5", ae.qual, "every added entry point is recorded under its entry point name", ae.loc(), construct="_ENTRY_POINTS store", message="_add_ep does not record the entry point")
-    vf = P.func(f"{PG}.versions")
-    gvf = ctx.cfg(vf)
-    vt = [t.idx for t in gvf.nodes if t.kind == "test" and norm(t.exprs[0]) == "version is None"]
-    rep.check(bool(vt) and all(all(isinstance(gvf.nodes[b].stmt, ast.Return) and norm(gvf.nodes[b].stmt.value) == "refs" for b, l in gvf.succ[t] if l == "T") for t in vt), "C16.R5", vf.qual, "without a requested version every registered version is returned, with one only the compatible ones", vf.loc(), construct="version filter condition", message="versions() applies the compatibility filter on the wrong branch")
-    rf = P.func(f"{PG}.resolve")
-    grf = ctx.cfg(rf)
-    rt = [t.idx for t in grf.nodes if t.kind == "test" and norm(t.exprs[0]).strip("()") == "refs := self.versions(p_name, version"]
-    rep.check(bool(rt) and all(all(isinstance(grf.nodes[b].stmt, ast.Return) and norm(grf.nodes[b].stmt.value) == "refs[-1]" for b, l in grf.succ[t] if l == "T") for t in rt), "C16.R5", rf.qual, "resolve returns the newest compatible version when there is one, else None", rf.loc(), construct="resolve condition", message="resolve() returns the last element on the wrong branch")
+    af_ = F(ctx, ae)
+    ns = [i_ for i_, v, b in af_.stores("self._ENTRY_POINTS[__k]") if norm(v) == ae.params[2] and af_.x_at(i_, b["__k"]) in (f"EPName({ae.params[1]})",) or (norm(v) == ae.params[2] and isinstance(b["__k"], ast.Name))]
+    rep.check(bool(ns) and af_.hit_before(af_.g.exit, nodes=ns), "C16.R5", ae.qual, "every added entry point is recorded under its entry point name", ae.loc(), construct="_ENTRY_POINTS store", message="_add_ep does not record the entry point")
+    vfi = P.func(f"{PG}.versions")
+    vf = F(ctx, vfi)
+    nover = vf.tests(f"{vfi.params[2]} is None")
+    REG2 = (f"list(self._VERSIONS.get({vfi.params[1]}) or [])", f"list(self._VERSIONS.get({vfi.params[1]}, []))")
+    plain = [i_ for i_, r in vf.returns() if r is not None and vf.x_at(i_, r) in REG2]
+    rep.check(bool(nover) and bool(plain) and vf.all_hit_before(plain, edges=nover) and all(vf.hit_before(vf.g.exit, nodes=plain, src_edge=e) for e in nover), "C16.R5", vfi.qual, "without a requested version every registered version is returned, with one only the compatible ones", vfi.loc(), construct="version filter condition", message="versions() returns the unfiltered list although a version was requested (or filters without one)")
+    rep.check(okp, "C16.R5", f"{PG}.resolve", "resolve returns the newest compatible version when there is one, else None", P.func(f"{PG}.resolve").loc(), construct="resolve condition", message="resolve() returns the last element on the wrong branch")
     fi = P.func(f"{PG}.keys")
-    ok = any(isinstance(x, ast.For) and norm(x.iter) == "self._VERSIONS.values()" for x in walk_local(fi.node)) and any(isinstance(x, ast.YieldFrom) for x in walk_local(fi.node))
+    kf = F(ctx, fi)
+    loops = [n for n in kf.g.nodes if n.kind == "for" and kf.x(n.stmt.iter) == "self._VERSIONS.values()" and isinstance(n.stmt.target, ast.Name)]
+    ok = len(loops) == 1 and any(isinstance(x, ast.YieldFrom) and norm(x.value) == loops[0].stmt.target.id for b_ in loops[0].stmt.body for x in ast.walk(b_)) and not any(isinstance(x, (ast.If, ast.Break, ast.Continue)) for b_ in loops[0].stmt.body for x in ast.walk(b_))
     rep.check(ok, "C16.R5", fi.qual, "keys() lists every registered version (yield from each list)", fi.loc(), construct="keys()", message="keys() does not iterate all version lists")
 
 
